@@ -162,6 +162,11 @@ def r_deleg(f):
                         cands.append(db.expr(tt["discr"]))
                     if tt and tt["k"] == "call" and tt["func"].get("fn") and tt["func"]["fn"]["name"] in ("then", "then_some"):
                         cands.append(db.expr(tt["args"][0]))
+                    if tt and tt["k"] == "switch" and any(int(a_) == 0 for a_, _ in tt["targets"]):
+                        # `match self.dim { 0 => None, n => Some(self.remove_*(n - 1)) }`: a switch on the dimension itself
+                        c0 = strip(db.expr(tt["discr"]))
+                        if is_self_field(c0, idx, [("param", 1)]) or (c0[0] == "call" and c0[2] == dimname):
+                            guards.append("match %s { 0 => .. }" % show(c0))
                     for c in cands:
                         c = strip(c)
                         if c[0] == "un" and c[1] == "Not":
@@ -189,7 +194,8 @@ def r_deleg(f):
                             c = strip(db.expr(tt["discr"]))
                             while c[0] == "un" and c[1] == "Not":
                                 c = strip(c[2])
-                            if c[0] == "bin" and c[1] in ("Ne", "Eq", "Gt", "Lt", "Ge", "Le") and any(const_usize(strip(o)) == 0 for o in (c[2], c[3])):
+                            direct_ = any(int(a_) == 0 for a_, _ in tt["targets"]) and (is_self_field(c, idx, [("param", 1)]) or (c[0] == "call" and c[2] == dimname))
+                            if direct_ or (c[0] == "bin" and c[1] in ("Ne", "Eq", "Gt", "Lt", "Ge", "Le") and any(const_usize(strip(o)) == 0 for o in (c[2], c[3]))):
                                 succs = [x[1] for x in tt["targets"]] + [tt["otherwise"]]
                                 if any(sx == bi or sx in domw.get(bi, set()) for sx in succs) and not all(sx == bi or sx in domw.get(bi, set()) for sx in succs):
                                     controls = True
